@@ -80,8 +80,9 @@ func HlslOptions(opt string) *hlsl.Options {
 // MslOptions returns the msl.Options of a named option set.
 func MslOptions(opt string) msl.Options {
 	o := msl.DefaultOptions()
-	o.FakeMissingBindings = true
 	switch opt {
+	case "fake":
+		o.FakeMissingBindings = true
 	case "v1.2":
 		o.LangVersion = msl.Version1_2
 	case "v2.4":
